@@ -414,8 +414,14 @@ func runC20(r *core.Run) {
 					continue
 				}
 				pk, _ := str(resp.obj, "pubkey")
-				if pk != comp {
-					c.r.Violate("shape:mint-quote-pubkey:"+name, fmt.Sprintf("the answer to a mint quote request locked to %s (%s spelling) names the key as %q, not as the compressed lower-case point %s", truncStr(spelled, 20), name, truncStr(pk, 140), comp), c.sig, nil)
+				same := false // the answer names the same point (in whatever valid encoding)
+				if b, err := hex.DecodeString(pk); err == nil {
+					if got, err := btcec.ParsePubKey(b); err == nil && got.IsEqual(k.PubKey()) {
+						same = true
+					}
+				}
+				if !same {
+					c.r.Violate("shape:mint-quote-pubkey:"+name, fmt.Sprintf("the answer to a mint quote request locked to %s (%s spelling) names the key as %q, which is not an encoding of the point %s", truncStr(spelled, 20), name, truncStr(pk, 140), comp), c.sig, nil)
 				}
 				q, _ := str(resp.obj, "quote")
 				if st := c.do("GET", "/v1/mint/quote/bolt11/"+q, nil); st.status == 200 {
